@@ -87,7 +87,9 @@ def check_case(acc: Acc, src: str, mode: str, origin: str):
     depth = max(gen_py.nesting_depth(src, toks), _crude_depth(src))
     acc.maxi("max_nesting_depth", depth)
     if not out.accepted:
-        if out.kind == "other" and isinstance(out.exc, RecursionError) and depth >= 22:
+        # F01g: the recursion limit of the interpreter is reached (since the repair for C03 this is reported as a SyntaxError that says so;
+        # a RecursionError that escapes is C03's business and is no longer attributed here)
+        if out.kind == "syntax" and "recursion limit reached" in str(out.exc.msg) and depth >= 22:
             acc.finding("F01g", src[:120])
             return
         names = xid_names(toks)
